@@ -3,14 +3,14 @@ real predicates with the specification (3p >= 2w, ...) on the power domain."""
 
 
 def search(ctx):
-    st = ctx.correspond("h_quorum", "quorum", tag="search", tier="thorough")
+    st = ctx.correspond("h_quorum", "Quorum", tag="search", tier="thorough")
     bad = [m for m in st.get("messages", []) if m.startswith("ORACLE-FAIL")]
     return bad[:20] or None
 
 
 def run(ctx):
     ctx.prove()
-    st = ctx.correspond("h_quorum", "quorum", nontrivial=r"^(sqrow|wqrow|cr|scaled|sq|wq) ")
+    st = ctx.correspond("h_quorum", "Quorum", nontrivial=r"^(sqrow|wqrow|cr|scaled|sq|wq) ")
     exhaustive = ctx.tier == "thorough" and st.get("hist", {}).get("sqrow", 0) == 65536
     return ctx.finish(
         rule="h_quorum: every line is one evaluation of the real Go predicate (sq/wq: one (part,whole) pair; "
